@@ -3557,6 +3557,14 @@ class TLSConnection(TLSRecordLayer):
                     "Malformed signature_algorithms extension"):
                 yield result
 
+        # a key_share extension may carry an empty list, but not no list
+        ext = clientHello.getExtension(ExtensionType.key_share)
+        if ext and ext.client_shares is None:
+            for result in self._sendError(
+                    AlertDescription.decode_error,
+                    "Empty key_share extension"):
+                yield result
+
         # the list of certificate types is defined as <1..2^8-1>
         ext = clientHello.getExtension(ExtensionType.cert_type)
         if ext and not ext.certTypes:
